@@ -474,6 +474,20 @@ def eval_misc(case):
                     bad('Maint/copy-not-editable', f'{type(e).__name__}: {e}')
                 if snap(mi) != want or mi.to_json() != text:
                     bad('Maint/copy-aliases-original', f'editing a copy changed the finalized original: {snap(mi)}')
+                # ... nor through the entry objects it hands out (get / list_details / iter) or shares with a copy
+                if entries:
+                    other = list(MaintenanceState)[(list(MaintenanceState).index(want[0][1]) + 1) % len(list(MaintenanceState))]
+                    for how, fetch in (('get', lambda m: m.get('node0')), ('list_details', lambda m: m.list_details()[0][1]),
+                                       ('iter', lambda m: next(m.iter())[1]), ('copy+get', lambda m: m.copy().get('node0'))):
+                        try:
+                            ent = fetch(mi)
+                            ent.state = other
+                            ent.deadline = MICRO
+                        except Exception:
+                            pass                 # refusing the edit is fine
+                        if snap(mi) != want or mi.to_json() != text:
+                            bad(f'Maint/finalized-altered-through-entry/{how}', f'after editing the entry obtained by {how} the finalized record reads {snap(mi)}')
+                            break
                 # forward compatibility: an unknown key inside an entry (at every position) is tolerated, known ones kept
                 obj = json.loads(text) if text else {}
                 for name in obj:
